@@ -224,7 +224,7 @@ def fmt(e, depth=0):
         return repr(e)
     op = e[0]
     if op == "param":
-        return e[2] or "arg%d" % e[1]
+        return (e[2] if len(e) > 2 else None) or "arg%d" % e[1]
     if op == "upvar":
         return "^" + (e[2] or str(e[1]))
     if op == "const":
